@@ -68,10 +68,12 @@ func (b *googleBreaker) doReq(req func() error, fallback func(err error) error, 
 		return err
 	}
 
+	// 用完成标记而非 recover() 的返回值判断是否 panic：panic(nil) 时 recover() 返回 nil，
+	// 若以此判断会吞掉该 panic 且不记录任何结果。不 recover，panic 会继续向上传播。
+	finished := false
 	defer func() {
-		if e := recover(); e != nil {
+		if !finished {
 			b.markFailure()
-			panic(e)
 		}
 	}()
 
@@ -81,6 +83,7 @@ func (b *googleBreaker) doReq(req func() error, fallback func(err error) error, 
 	} else {
 		b.markFailure()
 	}
+	finished = true
 
 	return err
 }
